@@ -194,7 +194,16 @@ func ParseJWT(tokenString string, f PublicKeyFunc, options ...jwt.ParseOption) (
 	options = append(options, jwt.WithKey(alg, key))
 	options = append(options, jwt.WithVerify(true))
 
-	return jwt.ParseString(tokenString, options...)
+	token, err := jwt.ParseString(tokenString, options...)
+	if err != nil {
+		return nil, err
+	}
+	// The JWT library treats an 'exp' claim of 0 (1970-01-01T00:00:00Z) as "not set" and skips the expiration check.
+	// Such a token does carry an expiration time, and it lies in the past.
+	if _, ok := token.Get(jwt.ExpirationKey); ok && token.Expiration().Unix() == 0 {
+		return nil, jwt.ErrTokenExpired()
+	}
+	return token, nil
 }
 
 // ParseJWS parses a JWS byte array object, validates and verifies it.
